@@ -55,3 +55,41 @@ PROPS["C02"] = {
     "assumptions": ["pure programs only (no sockets) for the exact clock model; network workloads are covered by the monotonic monitor only",
                     "arming a timer between stop() and run() returning is generated only in NDEBUG builds (debug assert in add_timer)"],
 }
+
+_QUEUE_RULE = ("cases = chains of 1-3 sim::queue objects with boundary-biased bandwidth/latency/capacity (capacity 0, < one packet, "
+               "k*packet-1/0/+1, large) fed by direct injection of hand-built packets of every type (single, burst, sustained overload, "
+               "arrivals at exact serialisation multiples); every packet is logged by probes immediately before and after each queue and "
+               "the log is checked offline (FIFO, departure formula with exact rational arithmetic +-1 ns, tail-drop decision recomputed "
+               "in log order, conservation, drop callback exactly once/intact). Non-trivial = the case had a drop, a backlogged departure or "
+               "an arrival coinciding with a departure; distinct = distinct (configuration, schedule) hashes.")
+
+PROPS["C09"] = {
+    "level": "exploration",
+    "claim": {
+        "technique": "runtime monitoring: offline checker over probe event logs (before/after every queue) against the departure formula",
+        "text": "Per-packet departure times and order of the real sim::queue are recorded by pass-through probes and re-derived offline from the formula, using observed previous departures so rounding cannot accumulate. Holds on the generated parameter/arrival families only.",
+        "note": "Trusts the probes (pass-through sinks) and the offline checker; the same checker also runs over TCP/UDP engine traffic.",
+        "ref": "DESIGN.md 3/C09",
+    },
+    "rule": _QUEUE_RULE,
+    "jobs": [{"engine": "queue", "args": {"n": T(6000, 300000)}}],
+    "require": {"quick": {"queue_backlogged_departures": 10000, "queue_arrival_coinciding_with_departure": 500},
+                "thorough": {"queue_backlogged_departures": 500000}},
+    "assumptions": ["packets are injected by harness timers at chosen virtual times; queues are not shared between chains"],
+}
+
+PROPS["C10"] = {
+    "level": "exploration",
+    "claim": {
+        "technique": "runtime monitoring: offline tail-drop/conservation checker over probe logs plus wrapped drop callbacks",
+        "text": "For every arrival the checker recomputes the bytes held (in log order) and the drop decision, matches every departure and every drop notification to exactly one arrival and compares packet fingerprints. Holds on the generated capacities/bursts only.",
+        "note": "Trusts probes and checker; 'held' is recomputed from observed arrivals/departures in the order the implementation processed them.",
+        "ref": "DESIGN.md 3/C10",
+    },
+    "rule": _QUEUE_RULE,
+    "jobs": [{"engine": "queue", "args": {"n": T(6000, 300000)}}],
+    "require": {"quick": {"queue_drops": 20000, "queue_drops_exactly_one_byte_over": 300, "queue_accepts_exactly_filling": 300,
+                          "queue_undroppable_accepted_over_capacity": 3000},
+                "thorough": {"queue_drops": 1000000}},
+    "assumptions": ["drop notifications are observed through callbacks installed by the harness (some packets deliberately carry none)"],
+}
